@@ -53,11 +53,14 @@ def model_json(kind, S=4, mapping=None, code='Universal'):
         return {'id': 'm', 'type': 'GeneralNonSymmetricSubstitutionModel', 'data_type': general_dt(S), 'mapping': mapping,
                 'rates': {'id': 'rates', 'type': 'Parameter', 'tensor': [1.0] * nr}, 'frequencies': fr}
     if kind == 'MG94':
+        from torchtree.evolution.datatype import CodonDataType
+
+        ncod = CodonDataType.NUMBER_OF_CODONS[[c.lower() for c in CodonDataType.GENETIC_CODE_NAMES].index(code.lower())]
         return {'id': 'm', 'type': 'MG94', 'data_type': {'id': 'dt', 'type': 'CodonDataType', 'genetic_code': code},
                 'alpha': {'id': 'alpha', 'type': 'Parameter', 'tensor': [1.0]},
                 'beta': {'id': 'beta', 'type': 'Parameter', 'tensor': [1.0]},
                 'kappa': {'id': 'kappa', 'type': 'Parameter', 'tensor': [1.0]},
-                'frequencies': {'id': 'freqs', 'type': 'Parameter', 'tensor': [1.0 / 61] * 61}}
+                'frequencies': {'id': 'freqs', 'type': 'Parameter', 'tensor': [1.0 / ncod] * ncod}}
     raise KeyError(kind)
 
 
